@@ -242,3 +242,29 @@ Example C02_returns_example :
   o = OReturn (RvReplies [mkReply 120 []; mkReply 220 []; mkReply 331 []; mkReply 230 []; mkReply 200 []]) /\
   recvd (w_trace w) = [mkReply 120 []; mkReply 220 []; mkReply 331 []; mkReply 230 []; mkReply 200 []].
 Proof. exact returns_example. Qed.
+
+(* ---- lockstep on the wire: every call, every state, every server (Lockstep_Global.v) ---- *)
+From LibFtp Require Lockstep_Global.
+
+(* within a call a command line is written only when every command line written before has been followed by a reply read:
+   one command line per protocol step, never two in a row (ABOR follows the preliminary reply) *)
+Theorem C02_one_command_line_per_reply : forall a w,
+  exists tr, w_trace (snd (step w a)) = w_trace w ++ tr /\ Lockstep_Global.okhs false tr.
+Proof. exact Lockstep_Global.step_one_command_line_per_reply. Qed.
+Print Assumptions C02_one_command_line_per_reply.
+
+Theorem C02_a_reply_between_two_command_lines : forall a w tr pre s o line post,
+  w_trace (snd (step w a)) = w_trace w ++ tr -> tr = pre ++ EWire s o line :: post ->
+  Lockstep_Global.hsafter false pre = false.
+Proof. exact Lockstep_Global.a_reply_between_two_command_lines. Qed.
+Print Assumptions C02_a_reply_between_two_command_lines.
+
+Example C02_example_lockstep_with_abor :
+  let w0 := init_world (mkConfig Passive true TBinary false false) Lockstep_Global.lockstep_script in
+  let w1 := snd (steps w0 [AConnect [104] 21 None]) in
+  let tr := skipn (length (w_trace w1)) (w_trace (snd (step w1 (ADownload [102] (Some [false; false; true; true]) None)))) in
+  map (fun e => match e with EWire _ _ l => firstn 4 l | ERecv _ r => [code r] | _ => [] end)
+      (filter (fun e => match e with EWire _ _ _ | ERecv _ _ => true | _ => false end) tr)
+  = [[69;80;83;86]; [229]; [82;69;84;82]; [150]; [65;66;79;82]; [426]; [226]]
+  /\ Lockstep_Global.okhs false tr.
+Proof. exact Lockstep_Global.lockstep_example. Qed.
